@@ -54,6 +54,20 @@ def snapshot(fn):
     return {"name": fn.name.value if hasattr(fn.name, "value") else str(fn.name), "blocks": blocks}
 
 
+def data_labels(fn):
+    """labels stored in the data segment of the context (jump tables), in order"""
+    from vyper.venom.basicblock import IRLabel
+    out = []
+    try:
+        for sec in fn.ctx.data_segment:
+            for item in sec.data_items:
+                if isinstance(item.data, IRLabel):
+                    out.append(item.data.value)
+    except Exception:
+        pass
+    return out
+
+
 def snap_text(s):
     def op(o):
         return str(o[1]) if o[0] == "lit" else (o[1] if o[0] == "var" else "@" + o[1])
@@ -303,7 +317,20 @@ def export(kind, before, after):
     cert = make_cert(kind, before, after, num)
     if cert is None:
         return "no certificate"
-    return {"f": "[" + ";\n  ".join(fb) + "]", "g": "[" + ";\n  ".join(ga) + "]", "cert": cert}
+    blabs = {l for l, _ in before["blocks"]}
+    db, da = before.get("data") or [], after.get("data") or []
+    if len(db) != len(da):
+        return "the data segment changed its length"
+    idx = [i for i, l in enumerate(db) if l in blabs]
+
+    def dl(name):
+        if name in num.lab:
+            return f"{num.lab[name]}%N"
+        if name not in num.foreign:
+            num.foreign[name] = FOREIGN + len(num.foreign)
+        return f"{num.foreign[name]}%N"
+    return {"f": "[" + ";\n  ".join(fb) + "]", "g": "[" + ";\n  ".join(ga) + "]", "cert": cert,
+            "db": "[" + "; ".join(dl(db[i]) for i in idx) + "]", "da": "[" + "; ".join(dl(da[i]) for i in idx) + "]", "ndata": len(idx)}
 
 
 # ------------------------------------------------------------------ search: event-trace executor (parallel phis)
@@ -370,7 +397,16 @@ def run_trace(s, seed, max_steps=400):
                     nxt = args[1][1] if vals[0] != 0 else args[2][1]
                 else:
                     labs = [a[1] for a in args if a[0] == "lab"]
-                    nxt = labs[oracle("djmp", [v for v in vals if not isinstance(v, tuple)], 0) % len(labs)] if labs else None
+                    table = s.get("data") or []
+                    if table:
+                        # the jump table decides: entry i (same i before and after the pass)
+                        ti = oracle("djmp", [v for v in vals if not isinstance(v, tuple)], 0) % len(table)
+                        if table[ti] not in labs:
+                            events.append(("djmp-table-entry-is-not-a-listed-target", ti))
+                            return events
+                        nxt = table[ti]
+                    else:
+                        nxt = labs[oracle("djmp", [v for v in vals if not isinstance(v, tuple)], 0) % len(labs)] if labs else None
                 break
             if opc == "assign" and len(vals) == 1 and len(outs) == 1:
                 env[outs[0]] = vals[0]
@@ -444,6 +480,7 @@ class Observer:
                 before = None
                 try:
                     before = snapshot(self_.function)
+                    before["data"] = data_labels(self_.function)
                 except Exception as e:  # the observer must never change what the compiler does
                     obs.errors.append(f"snapshot before {_nm}: {type(e).__name__}: {e}")
                 try:
@@ -455,7 +492,9 @@ class Observer:
                     raise
                 try:
                     if before is not None:
-                        obs.record(_nm, before, snapshot(self_.function))
+                        after = snapshot(self_.function)
+                        after["data"] = data_labels(self_.function)
+                        obs.record(_nm, before, after)
                 except Exception as e:
                     obs.errors.append(f"record {_nm}: {type(e).__name__}: {e}")
                 return r
@@ -469,13 +508,13 @@ class Observer:
 
     def record(self, pname, before, after):
         self.calls[pname] += 1
-        if before["blocks"] == after["blocks"]:
+        if before["blocks"] == after["blocks"] and before.get("data") == after.get("data"):
             self.unchanged[pname] += 1
             return
         if ninsts(before) > self.max_insts:
             self.too_big += 1
             return
-        key = hashlib.sha256(repr((pname, before["blocks"], after["blocks"])).encode()).hexdigest()[:16]
+        key = hashlib.sha256(repr((pname, before["blocks"], after["blocks"], before.get("data"), after.get("data"))).encode()).hexdigest()[:16]
         if key not in self.items:
             self.items[key] = {"pass": pname, "before": before, "after": after, "origin": self.origin, "ninsts": ninsts(before),
                                "key": key}
@@ -483,7 +522,8 @@ class Observer:
 
 def evaluate(items, name="c14g", timeout=600):
     exprs = [f"let f : func := {it['exp']['f']} in let g : func := {it['exp']['g']} in "
-             f"[if cfg_check f g ({it['exp']['cert']}) then 1 else 0; if phis_indep f && phis_indep g then 1 else 0]" for it in items]
+             f"[if cfg_check f g ({it['exp']['cert']}) then 1 else 0; if phis_indep f && phis_indep g then 1 else 0; "
+             f"if data_check f g {it['exp']['db']} {it['exp']['da']} ({it['exp']['cert']}) then 1 else 0]" for it in items]
     if not exprs:
         return []
     return coqrun.eval_zlists(IMPORTS, exprs, name, shard=max(1, (len(exprs) + 7) // 8), timeout=timeout)
@@ -754,7 +794,12 @@ def part_cfg_passes(ctx):
                     it["witness"] = w
                     verdicts.append((it, False))
                 continue
-            verdicts.append((it, r[0] == 1))
+            if it["exp"].get("ndata"):
+                stats["with_jump_table"] = stats.get("with_jump_table", 0) + 1
+                stats["jump_table_entries"] = stats.get("jump_table_entries", 0) + it["exp"]["ndata"]
+                if r[2] != 1:
+                    it["data_rejected"] = True
+            verdicts.append((it, r[0] == 1 and r[2] == 1))
     verdicts += [(it, False) for it in todo if it["exp"] is None]
     rejected = []
     for it, ok in verdicts:
@@ -769,13 +814,17 @@ def part_cfg_passes(ctx):
         if it.get("witness") is None:
             it["witness"] = search(it["before"], it["after"], rnd)
     rejected.sort(key=lambda it: it.get("witness") is None)
+    per_pass = {}
     for it in rejected:
-        if nrep >= 3:
-            break
+        if per_pass.get(it["pass"], 0) >= 2:
+            continue
+        per_pass[it["pass"]] = per_pass.get(it["pass"], 0) + 1
         w = it.get("witness")
         detail = {"pass": it["pass"], "origin": it["origin"], "function_before": snap_text(it["before"])[:6000],
                   "function_after": snap_text(it["after"])[:6000],
-                  "call": f"{it['pass']}(IRAnalysesCache(fn), fn).run_pass() on parse_venom(function_before)"}
+                  "call": f"{it['pass']}(IRAnalysesCache(fn), fn).run_pass() on parse_venom(function_before)",
+                  "jump_table_before": it["before"].get("data"), "jump_table_after": it["after"].get("data"),
+                  "rejected_by": "data_check (jump table)" if it.get("data_rejected") else "cfg_check"}
         if w is not None:
             nrep += 1
             found = True
